@@ -75,11 +75,6 @@ def gen_world(
     if unique is not None:
         y, x = r.choice(free)
         cells[y][x] = obj(unique)
-    if beacon_colour is not None and not any(c[0] == 'Beacon' for row in cells for c in row):
-        cand = [(y, x) for (y, x) in free if cells[y][x][0] != unique] or free
-        y, x = r.choice(cand)
-        if cells[y][x][0] != unique:
-            cells[y][x] = ['Beacon', beacon_colour]
     # agent
     if r.random() < edge_bias:
         side = r.choice('NESW')
@@ -124,6 +119,11 @@ def gen_world(
     fy, fx = ay + dy, ax + dx
     if 0 <= fy < h and 0 <= fx < w and placeable and r.random() < 0.5 and cells[fy][fx][0] != unique:
         cells[fy][fx] = obj(r.choice(placeable)) if r.random() < 0.8 else ['Floor']
+    if beacon_colour is not None and not any(c[0] == 'Beacon' for row in cells for c in row):
+        cand = [(y, x) for (y, x) in free if cells[y][x][0] != unique]
+        if cand:
+            y, x = r.choice(cand)
+            cells[y][x] = ['Beacon', beacon_colour]
     return {'h': h, 'w': w, 'cells': cells, 'agent': [ay, ax, hd, held]}
 
 
@@ -133,6 +133,14 @@ def world_is_valid_start(world):
         return False
     c = world['cells'][y][x]
     return not (c[0] in ('Wall', 'Box') or (c[0] == 'Door' and c[1] != 'OPEN'))
+
+
+def precond_ok(unique, beacon, world):
+    if unique is not None and sum(1 for row in world['cells'] for c in row if c[0] == unique) != 1:
+        return False
+    if beacon and len({c[1] for row in world['cells'] for c in row if c[0] == 'Beacon'}) != 1:
+        return False
+    return True
 
 
 def gen_types(r, must=()):
@@ -302,6 +310,11 @@ def gen_hand_client(r, *, hmax=8, wmax=8, allow_stochastic=True, deterministic_o
     wkw = dict(unique=unique, beacon_colour=beacon_colour, valid_start=valid_start)
     world = gen_world(r, h, w, types, colors, **wkw)
     pool = [gen_world(r, h, w, types, colors, **wkw) for _ in range(r.randint(0, n_pool))]
+    if not all(precond_ok(unique, beacon, wv) for wv in [world] + pool):
+        # too small to host both the unique object and a beacon: drop the beacon precondition
+        beacon, wkw['beacon_colour'] = False, None
+        world = gen_world(r, h, w, types, colors, **wkw)
+        pool = [gen_world(r, h, w, types, colors, **wkw) for _ in pool]
     rewards = [gen_reward(r, types, unique, beacon) for _ in range(r.randint(1, 3))]
     spec = {
         'kind': 'hand',
